@@ -135,22 +135,16 @@ func (m *expirationMap[V]) cleanup(store store[V], policy *defaultPolicy[V], onE
 
 	for _, keys := range buckets {
 		for key, conflict := range keys {
-			verifObserve(vpSweepKey, key, conflict)
-			verifPoint(vpSweepKey)
-			expr := store.Expiration(key)
-			// Sanity check. Verify that the store agrees that this key is expired. A zero
-			// expiration means that the key has been re-written without TTL since the bucket
-			// was filled (or is gone): it must not be removed by expiry processing.
-			if expr.IsZero() || expr.After(now) {
+			// Remove the key only if the store agrees that it is expired. The check and the
+			// removal happen in one critical section: an entry that is concurrently re-written
+			// with a later TTL, or with no TTL, must not be removed by expiry processing.
+			value, expr, ok := store.DelExpired(key, conflict, now)
+			if !ok {
 				continue
 			}
-			verifPoint(vpSweepChecked)
 
 			cost := policy.Cost(key)
 			policy.Del(key)
-			verifPoint(vpSweepPolicyDel)
-			_, value := store.Del(key, conflict)
-			verifPoint(vpSweepStoreDel)
 
 			if onEvict != nil {
 				onEvict(&Item[V]{Key: key,
